@@ -1,20 +1,26 @@
 import SimVerif.Driver.Nms
+import SimVerif.Driver.Constr
 open SimVerif SimVerif.Wire SimVerif.Driver
 
+structure DState where
+  constr : ConstrD.St := {}
+
 /-- one request per line: `<family> <args…> => <implementation's answer…>`; one answer per line -/
-def step (line : String) : String :=
+def step (st : DState) (line : String) : DState × String :=
   let toks := (line.trimAscii.toString.splitOn " ").filter (· ≠ "")
   let (req, impl) := splitAt "=>" toks
   match req with
-  | "case" :: _ => "C"
-  | "nms" :: args => NmsD.handle args impl
-  | _ => bad "family"
+  | "case" :: _ => ({}, "C")
+  | "nms" :: args => (st, NmsD.handle args impl)
+  | "constr" :: args => let (s, r) := ConstrD.handle st.constr args impl; ({ st with constr := s }, r)
+  | _ => (st, bad "family")
 
-partial def loop (h : IO.FS.Stream) (out : IO.FS.Stream) : IO Unit := do
+partial def loop (h : IO.FS.Stream) (out : IO.FS.Stream) (st : DState) : IO Unit := do
   let line ← h.getLine
   if line.isEmpty then return ()
-  out.putStrLn (step line)
-  loop h out
+  let (st', r) := step st line
+  out.putStrLn r
+  loop h out st'
 
 def main : IO Unit := do
-  loop (← IO.getStdin) (← IO.getStdout)
+  loop (← IO.getStdin) (← IO.getStdout) {}
